@@ -540,8 +540,14 @@ C10_refuse(g, o, ln, o2) ==
 \* state-changing work happens only under the slot: a spawn, or a watcher changing status, while the slot is
 \* free means an operation is running unserialized (workers forgotten by D3 and on-demand watchers excepted)
 StChanged(o, o2) == { i \in WIdx(o2) : \E j \in WIdx(o) : o.w[j].ln = o2.w[i].ln /\ o.w[j].st # o2.w[i].st /\ ~o2.w[i].od }
-C10_held(o, ln, o2) ==
-   (ln.k = "spawn" \/ StChanged(o, o2) # {}) => (o.slot # "" \/ o2.slot # "")
+\* a watcher that was removed from the directory stays in the projection until it is stopped and empty: its leaving
+\* the projection is its last status change
+\* (a watcher removed with nostop is released, running, when the rm request has been handled)
+Vanished(g, o, o2) == { j \in WIdx(o) : /\ o.w[j].st # "stopped" /\ ~o.w[j].od
+                                        /\ ~\E i \in WIdx(o2) : o2.w[i].ln = o.w[j].ln
+                                        /\ ~(g.ctx.on /\ g.ctx.cmd = "rm" /\ g.ctx.nostop /\ g.ctx.lname = o.w[j].ln) }
+C10_held(g, o, ln, o2) ==
+   (ln.k = "spawn" \/ StChanged(o, o2) # {} \/ Vanished(g, o, o2) # {}) => (o.slot # "" \/ o2.slot # "")
 C10_accept(ln) == (ln.k = "reply" /\ ln.w = "xprobe") => ln.r = "ok"
 
 \* ---------------- C11: a request refused as invalid or conflicting changes nothing
@@ -700,7 +706,7 @@ Clauses(g, o, ln, o2, g2) ==
     C08_done |-> C08_done(g2, o2, ln),
     C09_spawn |-> C09_spawn(g, ln), C09_reap |-> C09_reap(g, o, ln), C09_live |-> C09_live(g2, o2, ln),
     C09_startstop |-> C09_startstop(g, o2, ln),
-    C10_wedge |-> C10_wedge(o2, ln), C10_refuse |-> C10_refuse(g, o, ln, o2), C10_accept |-> C10_accept(ln), C10_held |-> C10_held(o, ln, o2),
+    C10_wedge |-> C10_wedge(o2, ln), C10_refuse |-> C10_refuse(g, o, ln, o2), C10_accept |-> C10_accept(ln), C10_held |-> C10_held(g, o, ln, o2),
     C11_unchanged |-> C11_unchanged(g, ln, o2),
     C13_wid |-> C13_wid(o, o2),
     C14_startgate |-> C14_startgate(g, o, o2), C14_siggate |-> C14_siggate(g, ln),
